@@ -426,6 +426,75 @@ func c03Check(l *explore.Local, e *cpuEnv, c c03Case) *explore.Fail {
 	return nil
 }
 
+// c03DivCheck observes the cycle of a data write through a location whose write has an effect whatever the
+// value: any write to DIV (FF04) clears it. So also writes that store the value already there (RES on a clear
+// bit, SET on a set bit, LD (HL),A with equal contents) must show in their documented cycle.
+type c03Div struct {
+	Op      int    `json:"op"`
+	Ptr     uint16 `json:"ptr"`
+	Flags   uint8  `json:"flags"`
+	Counter uint16 `json:"counter"` // timer divider before the instruction (DIV = high byte, non-zero)
+}
+
+func c03DivCheck(l *explore.Local, e *cpuEnv, c c03Div) *explore.Fail {
+	regs, code := c03Regs(c.Op, c.Ptr, c.Flags)
+	regs.A = uint8(c.Counter >> 8) // LD (..),A then stores the value DIV already shows
+	e.m.Map.Write(0xff0f, 0)
+	e.m.Map.Write(0xffff, 0)
+	e.placeCode(0xc000, code)
+	e.m.T.VSetCounter(c.Counter)
+	e.log = e.log[:0]
+	dry := toRef(regs)
+	info := dry.Step(preBus{e})
+	if info.Undefined {
+		return nil
+	}
+	want := 0
+	for _, a := range info.Accesses {
+		if a.Write && a.Addr == 0xff04 {
+			if want != 0 {
+				return nil // two writes to the same place: the first one is the observable one; keep it simple
+			}
+			want = a.Cycle
+		} else if a.Write && !plainAddr(a.Addr) {
+			return nil // another side-effecting target: outside this probe
+		}
+	}
+	if want == 0 {
+		return nil
+	}
+	e.m.CPU.VSet(regs)
+	seen, n := 0, 0
+	for {
+		n++
+		e.m.CPU.ExecuteMachineCycle()
+		if seen == 0 && e.m.Map.Read(0xff04) == 0 {
+			seen = n
+		}
+		if e.m.CPU.VAtBoundary() || n >= 40 {
+			break
+		}
+	}
+	// undo the instruction's plain-memory writes in the shadow
+	for _, w := range e.log {
+		if plainAddr(w.Addr) {
+			e.shadow[fold(w.Addr)] = e.m.Map.Read(w.Addr)
+		}
+	}
+	if seen != want {
+		what := fmt.Sprintf("observed after cycle %d", seen)
+		if seen == 0 {
+			what = "never observed"
+		}
+		return explore.Failf(fmt.Sprintf("op %s: data write not in the documented machine cycle", opName(info)),
+			"pointer aimed at DIV (FF04, reads %02x before): the write that must clear it is %s, documented cycle %d", uint8(c.Counter>>8), what, want)
+	}
+	l.Eval(1)
+	l.Trans(n)
+	l.Outcome(uint64(c.Op)<<8 | uint64(want))
+	return nil
+}
+
 func init() {
 	register("C02", "model_checking", func(c *Ctx) {
 		if c.R != nil {
@@ -478,7 +547,7 @@ func init() {
 
 	register("C03", "model_checking", func(c *Ctx) {
 		if c.R != nil {
-			c.R.Rule = "for every opcode with a data access x pointer placement x flag nibble: before each machine cycle the harness stores a marker at every address the instruction reads, the distinguishing marker only before the documented read cycle, so the registers/flags at the boundary identify the cycle of the read; every write target is read back after every cycle so the first cycle at which it holds the written value identifies the cycle of the write; the documented cycles come from the reference interpreter's access list; the same measurement with a predecessor instruction executed first and the CPU not re-seeded in between"
+			c.R.Rule = "for every opcode with a data access x pointer placement x flag nibble: before each machine cycle the harness stores a marker at every address the instruction reads, the distinguishing marker only before the documented read cycle, so the registers/flags at the boundary identify the cycle of the read; every write target is read back after every cycle so the first cycle at which it holds the written value identifies the cycle of the write; the documented cycles come from the reference interpreter's access list; writes are additionally observed through DIV (any write clears it), so a write of the value already present also has to appear in its documented cycle; the same measurement with a predecessor instruction executed first and the CPU not re-seeded in between"
 			c.R.Assumptions = []string{"operand-byte fetch cycles and the pushes of interrupt dispatch are outside the statement", "addressed locations are memory-like (WRAM, echo, HRAM, VRAM/OAM with the LCD off)"}
 		}
 		ptrs := []uint16{0xc100, 0xdfc0, 0xe100, 0xfd80, 0xff80, 0xffa0, 0x8100, 0xfe10}
@@ -497,6 +566,23 @@ func init() {
 					}
 				}
 			}, newCPUEnv, c03Check)
+		explore.Product(c.R, "write-cycle-observed-through-DIV", explore.PartOpt{Bound: "single instruction, DIV read after every machine cycle", Domain: "every opcode x 4 pointer placements that aim BC / DE / HL / nn, FF00+n, FF00+C at FF04 x flags {00,F0} x DIV before = {40, FF, 01} (so read-modify-write instructions meet set and clear bits)"},
+			func(yield func(c03Div) bool) {
+				for op := 0; op < 512; op++ {
+					if op < 256 && (ref.UndefinedOpcodes[uint8(op)] || op == 0xcb || op == 0x76 || op == 0x10) {
+						continue
+					}
+					for _, p := range []uint16{0xff04, 0xff00, 0xfefc, 0xfee4} {
+						for _, fl := range []uint8{0x00, 0xf0} {
+							for _, cnt := range []uint16{0x4000, 0xff00, 0x0100} {
+								if !yield(c03Div{Op: op, Ptr: p, Flags: fl, Counter: cnt}) {
+									return
+								}
+							}
+						}
+					}
+				}
+			}, newCPUEnv, c03DivCheck)
 		explore.Product(c.R, "access-cycles-after-a-predecessor", explore.PartOpt{Bound: "two instructions, the CPU is not re-seeded between them; every machine cycle of the second observed", Domain: "every memory-accessing opcode x predecessors {its CB-prefixed / unprefixed twin, NOP, JR NZ taken and not taken, RET NZ not taken, BIT 0,(HL), INC (HL), PUSH BC, LD A,(HL+), CALL, RST-free set} (thorough: all 500 predecessors) x 2 pointer placements x flags {00,F0}"},
 			func(yield func(c03Case) bool) {
 				for op := 0; op < 512; op++ {
